@@ -57,4 +57,8 @@ def severityTable : List (String × Nat × Nat) := [
   ("InputFieldDefaultValueChange", 1, 2),
   ("InputFieldChangedType", 2, 2)
 ]
+
+/-- `_compatible(change)`: the severity given to the type changes the differ considers safe for clients
+    (`none`: the source has no such helper: those retypings are not reported at all) -/
+def compatibleRetypeSeverity : Option Nat := some 0
 end PyGql.Generated.Differ
